@@ -173,17 +173,25 @@ LIMIT_RUNS = {
     "limit-all-asleep": ('[] spawn { sleep 100 }; diag_log "a1"', "limit"),
     "limit-after-handled": ('{\n1 + "a"\n} except__ { diag_log "k1" }; while {true} do { q = 2 }', "limit"),
 }
-HIST_LIMIT_KINDS = ["clean", "err-mid", "spawned-err", "handled"] + list(LIMIT_RUNS)
+# a runtime error raised while the text of a run is PREPROCESSED (failing __EVAL): it is reported where it happens (inside
+# the evaluated expression) and is no error of the script, which then runs like any clean one - and so do the runs after it
+PP_RUNS = {
+    "eval-fails-in-preprocessing": ('diag_log "p1"; private _v = [__EVAL(1 + true)]; diag_log "p2"', "ok"),
+    "eval-fails-then-error": ('diag_log "q1"; private _v = [__EVAL(1 + true)];\n1 + "a"\n; diag_log "q2"', "fail"),
+}
+HIST_LIMIT_KINDS = ["clean", "err-mid", "spawned-err", "handled"] + list(LIMIT_RUNS) + list(PP_RUNS)
 RUNS.update(LIMIT_RUNS)
+RUNS.update(PP_RUNS)
+EVAL_PATH = "__evaluate_expression__"
 LIMIT_CODE = 60002
-UNREACHED = {"e2", "s3"}
-ALL_MARKS = {"clean": ["c1", "c2"], "handled": ["h1", "h2", "h3"], "two-clean-scripts": ["w1", "w2", "w3"]}
+UNREACHED = {"e2", "s3", "q2"}
+ALL_MARKS = {"clean": ["c1", "c2"], "handled": ["h1", "h2", "h3"], "two-clean-scripts": ["w1", "w2", "w3"], "eval-fails-in-preprocessing": ["p1", "p2"]}
 
 
 def gen_hist(maxlen, kinds=None, need=None):
     def g():
         for n in range(1, maxlen + 1):
-            for seq in itertools.product(kinds or [k for k in RUNS if k not in LIMIT_RUNS], repeat=n):
+            for seq in itertools.product(kinds or [k for k in RUNS if k not in LIMIT_RUNS and k not in PP_RUNS], repeat=n):
                 if need and not (set(seq) & set(need)):
                     continue
                 yield list(seq)
@@ -194,7 +202,7 @@ def check_hist(ws, seq):
     limited = bool(set(seq) & set(LIMIT_RUNS))
     steps = [{"op": "vm", "id": 0, "template": True, "max_runtime_ms": 20 if limited else 300}]
     for k in seq:
-        steps.append({"op": "sqf", "id": 0, "text": RUNS[k][0], "path": k + ".sqf"})
+        steps.append({"op": "sqf", "id": 0, "text": RUNS[k][0], "path": k + ".sqf", "preprocess": k in PP_RUNS})
         steps.append({"op": "exec", "id": 0, "action": "start"})
         steps.append({"op": "exec", "id": 0, "action": "abort"})   # what CLI / C API do after a failed run
         steps.append({"op": "state", "id": 0})
@@ -212,6 +220,8 @@ def check_hist(ws, seq):
         logs = [m for m in res["log"] if m["step"] in (base, base + 1, base + 2)]
         marks = [m["msg"].split("[DIAG_LOG] ", 1)[1] for m in logs if m["code"] == 60019]
         errs = [m for m in logs if m["lvl"] <= 1]
+        if k in PP_RUNS:    # what the failing __EVAL reports about itself is located in the evaluated expression
+            errs = [m for m in errs if not (m.get("path") or "").startswith(EVAL_PATH)]
         prev = seq[i - 1] if i else "start"
         tag = "after=%s|run=%s" % (prev, k)
         if RUNS[k][1] == "limit":
@@ -248,8 +258,8 @@ def spaces(tier):
               describe="fault at top level and in every template's executed block x 8 error kinds x 6 handler placements"),
         Space("histories", gen_hist(3 if tier == "quick" else 5), check_hist, variant="fast",
               describe="all sequences of run kinds on one VM (10 kinds; length <=3 quick, <=5 thorough)"),
-        Space("histories-with-limit", gen_hist(3 if tier == "quick" else 4, HIST_LIMIT_KINDS, LIMIT_RUNS), check_hist, variant="fast",
-              describe="sequences of runs on one VM that contain at least one run ended by the runtime limit (5 such kinds + 4 ordinary kinds)"),
+        Space("histories-with-limit", gen_hist(3 if tier == "quick" else 4, HIST_LIMIT_KINDS, list(LIMIT_RUNS) + list(PP_RUNS)), check_hist, variant="fast",
+              describe="sequences of runs on one VM that contain at least one run ended by the runtime limit (5 kinds) or one whose text holds a failing __EVAL (2 kinds), mixed with 4 ordinary kinds"),
     ]
     if tier == "quick":
         sp.append(Space("faults-depth2-reduced", gen_faults(2, c02_interact(), ["type", "count-behaviour"], ["none", "except-inner", "try-inner"]), check,
